@@ -27,23 +27,23 @@ variable {K : Type} [Field K] (c c3 : K) (fn : Fns K)
 theorem N3_ts_apply (hc : c * c = 2) (h2 : (2:K) ≠ 0) (a : Fin 6 → Fin 9 → K) (x : Fin 9 → K) :
     gen% (Gen.N3_ts_apply_all c c3 fn) | a 6 9 | x 9
       = T2.st c (T4.app (T4.ofTS c a) (T2.ofTens x)) := by
-  t4_eq hc
+  rw [st_app_TS hc h2]; t4_eq hc
 theorem N3_ts_applyL (hc : c * c = 2) (h2 : (2:K) ≠ 0) (s : Fin 6 → K) (a : Fin 6 → Fin 9 → K) :
     gen% (Gen.N3_ts_applyL_all c c3 fn) | s 6 | a 6 9
       = T2.tens (T4.appL (T2.ofSt c s) (T4.ofTS c a)) := by
-  t4_eq hc
+  rw [tens_appL_TS hc h2]; t4_eq hc
 theorem N3_ts_comp_st_ts (hc : c * c = 2) (h2 : (2:K) ≠ 0) (a : Fin 6 → Fin 6 → K) (b : Fin 6 → Fin 9 → K) :
     gen% (Gen.N3_ts_comp_st_ts_all c c3 fn) | a 6 6 | b 6 9
       = rows69 (T4.stoTS c (T4.comp (T4.ofST c a) (T4.ofTS c b))) := by
-  t4_eq hc
+  rw [stoTS_comp_ST_TS hc h2]; t4_eq hc
 theorem N3_ts_comp_ts_tt (hc : c * c = 2) (h2 : (2:K) ≠ 0) (a : Fin 6 → Fin 9 → K) (b : Fin 9 → Fin 9 → K) :
     gen% (Gen.N3_ts_comp_ts_tt_all c c3 fn) | a 6 9 | b 9 9
       = rows69 (T4.stoTS c (T4.comp (T4.ofTS c a) (T4.ofTT b))) := by
-  t4_eq hc
+  rw [stoTS_comp_TS_TT hc h2]; t4_eq hc
 theorem N3_ts_dyad (hc : c * c = 2) (h2 : (2:K) ≠ 0) (s : Fin 6 → K) (x : Fin 9 → K) :
     gen% (Gen.N3_ts_dyad_all c c3 fn) | s 6 | x 9
       = rows69 (T4.stoTS c (T2.dyad (T2.ofSt c s) (T2.ofTens x))) := by
-  t4_eq hc
+  rw [stoTS_dyad hc h2]; t4_eq hc
 /-- `convertToT2toST2(T)`: symmetric part of the result, `(T_ijkl + T_jikl)/2` -/
 theorem N3_ts_convert_from_t2tot2 (hc : c * c = 2) (h2 : (2:K) ≠ 0) (a : Fin 9 → Fin 9 → K) :
     gen% (Gen.N3_ts_convert_from_t2tot2_all c c3 fn) | a 9 9
